@@ -230,10 +230,40 @@ def body_wo_doc(fn):
     return out
 
 
-def is_logger_call(s):
-    return (isinstance(s, ast.Expr) and isinstance(s.value, ast.Call)
-            and isinstance(s.value.func, ast.Attribute)
-            and isinstance(s.value.func.value, ast.Name) and s.value.func.value.id == 'logger')
+INERT_NODES = (ast.Constant, ast.Name, ast.Attribute, ast.Subscript, ast.Slice, ast.JoinedStr, ast.FormattedValue, ast.BinOp, ast.UnaryOp,
+               ast.Compare, ast.BoolOp, ast.IfExp, ast.Tuple, ast.List, ast.Dict, ast.ListComp, ast.GeneratorExp, ast.comprehension,
+               ast.expr_context, ast.operator, ast.unaryop, ast.cmpop, ast.boolop)
+
+
+def logger_args_inert(call):
+    """The translators skip logging statements: that is only sound when producing the message cannot change anything or raise --
+    no call of any kind (`list(it)` consumes an iterator, a property call may have effects), no format specification (`{x:.4f}` raises for
+    an array or None), comprehensions only over attributes of `self`.  -> None, or the reason the message is not inert."""
+    for a in list(call.args) + [k.value for k in call.keywords]:
+        for x in ast.walk(a):
+            if not isinstance(x, INERT_NODES):
+                return 'its message contains a %s (`%s`)' % (type(x).__name__, ast.unparse(x)[:50])
+            if isinstance(x, ast.FormattedValue) and x.format_spec is not None:
+                return 'its message formats `%s` with a format specification' % ast.unparse(x.value)[:40]
+            if isinstance(x, ast.comprehension):
+                r = x.iter
+                while isinstance(r, ast.Attribute):
+                    r = r.value
+                if not (isinstance(r, ast.Name) and r.id == 'self' and isinstance(x.iter, ast.Attribute)) or x.ifs or x.is_async:
+                    return 'its message iterates over `%s`' % ast.unparse(x.iter)[:40]
+    return None
+
+
+def is_logger_call(s, file='opytimizer'):
+    ok = (isinstance(s, ast.Expr) and isinstance(s.value, ast.Call)
+          and isinstance(s.value.func, ast.Attribute)
+          and isinstance(s.value.func.value, ast.Name) and s.value.func.value.id == 'logger')
+    if ok:
+        why = logger_args_inert(s.value)
+        if why:
+            raise TranslationError(file, s, 'a logging statement is only skipped when building its message can neither raise nor change '
+                                            'anything: %s' % why)
+    return ok
 
 
 def src_of(src, node):
